@@ -659,6 +659,7 @@ func replayOnce(rs *RunSpec, trace []string) (sigs []string, log []string, err e
 		log = append(log, diffStates(s, post)...)
 		t := &Trans{Pre: v, Act: *act, Res: res, Post: pv, PreMon: mon, PostMon: pm}
 		halt := act.Kind == "E" && res.Panic != ""
+		x.InCont = e.rig.Dirty() // a process that carries keeper memory is judged as in its continuation (explore.go)
 		if act.Kind == "restart" && !res.OK() && res.Prepared != nil {
 			tp := &Trans{Pre: v, Act: *act, Res: res, Post: e.rig.Decode(res.Prepared), PreMon: mon, PostMon: mon}
 			for _, o := range e.Oracles {
